@@ -259,6 +259,26 @@ func (p *Program) Callees(c ssa.CallInstruction) (fns []*ssa.Function, resolved 
 		if iface == nil {
 			return nil, false
 		}
+		if ts, complete := p.concreteTypesOf(com.Value); complete {
+			for _, t := range ts {
+				sel := p.Prog.MethodSets.MethodSet(t).Lookup(com.Method.Pkg(), com.Method.Name())
+				if sel == nil {
+					continue
+				}
+				fn := p.Prog.MethodValue(sel)
+				if fn != nil && fn.Synthetic != "" {
+					if m, ok := sel.Obj().(*types.Func); ok {
+						if d := p.Prog.FuncValue(m); d != nil {
+							fn = d
+						}
+					}
+				}
+				if fn != nil && fn.Blocks != nil {
+					fns = appendUniqueFn(fns, fn)
+				}
+			}
+			return fns, true
+		}
 		for _, n := range p.AllNamed() {
 			for _, t := range []types.Type{n, types.NewPointer(n)} {
 				if _, isIface := n.Underlying().(*types.Interface); isIface {
@@ -536,16 +556,59 @@ func branchFact(b Branch) (Fact, bool) {
 func dominatingFacts(at ssa.Instruction) []Fact {
 	var facts []Fact
 	blk := at.Block()
-	for b := blk; b != nil; b = b.Idom() {
-		if len(b.Preds) == 1 {
-			if br, ok := edgeCond(b.Preds[0], b); ok {
-				if f, ok := branchFact(br); ok {
-					facts = append(facts, f)
-				}
+	fn := blk.Parent()
+	if len(fn.Blocks) == 0 {
+		return nil
+	}
+	entry := fn.Blocks[0]
+	for _, a := range fn.Blocks {
+		if len(a.Succs) != 2 || a.Succs[0] == a.Succs[1] || !a.Dominates(blk) {
+			continue
+		}
+		for _, s := range a.Succs {
+			br, ok := edgeCond(a, s)
+			if !ok {
+				continue
+			}
+			f, ok := branchFact(br)
+			if !ok {
+				continue
+			}
+			// the edge a->s dominates blk iff blk is unreachable from the entry once the edge is removed
+			if a == blk {
+				continue
+			}
+			if !reachableWithoutEdge(entry, blk, a, s) {
+				facts = append(facts, f)
 			}
 		}
 	}
 	return facts
+}
+
+func reachableWithoutEdge(entry, target, ea, eb *ssa.BasicBlock) bool {
+	seen := map[*ssa.BasicBlock]bool{}
+	work := []*ssa.BasicBlock{entry}
+	for len(work) > 0 {
+		b := work[len(work)-1]
+		work = work[:len(work)-1]
+		if seen[b] {
+			continue
+		}
+		seen[b] = true
+		if b == target {
+			return true
+		}
+		for _, s := range b.Succs {
+			if b == ea && s == eb {
+				continue
+			}
+			if !seen[s] {
+				work = append(work, s)
+			}
+		}
+	}
+	return false
 }
 
 // postDominators computes post-dominance sets for fn (exit = Return/Panic blocks, virtual exit joins them).
@@ -877,7 +940,9 @@ func errorResults(c ssa.CallInstruction) []ssa.Value {
 		if refs := val.Referrers(); refs != nil {
 			for _, r := range *refs {
 				if ex, ok := r.(*ssa.Extract); ok && ex.Index == i {
-					out = append(out, ex)
+					if er := ex.Referrers(); er != nil && len(*er) > 0 {
+						out = append(out, ex)
+					}
 				}
 			}
 		}
@@ -945,4 +1010,156 @@ func sortedKeys(m map[string]bool) []string {
 	}
 	sort.Strings(out)
 	return out
+}
+
+// concreteTypesOf: the dynamic types an interface value may hold, found by tracing it back through
+// phis, type assertions, repository functions' returns, and every store into the struct field or
+// package variable it is loaded from (a small type-flow analysis over the repository). Types defined
+// outside the repository contribute no repository callee and are dropped. complete=false when some
+// source cannot be resolved (a parameter, an unknown load) - the caller then falls back to all
+// implementing repository types.
+func (p *Program) concreteTypesOf(v ssa.Value) ([]types.Type, bool) {
+	var out []types.Type
+	complete := true
+	seen := map[ssa.Value]bool{}
+	seenField := map[string]bool{}
+	addT := func(t types.Type) {
+		for _, x := range out {
+			if types.Identical(x, t) {
+				return
+			}
+		}
+		out = append(out, t)
+	}
+	var walk func(v ssa.Value, depth int)
+	walkField := func(owner *types.Named, field string, depth int) {
+		key := owner.String() + "." + field
+		if seenField[key] {
+			return
+		}
+		seenField[key] = true
+		n := 0
+		for _, fn := range p.Funcs() {
+			for _, b := range fn.Blocks {
+				for _, in := range b.Instrs {
+					st, ok := in.(*ssa.Store)
+					if !ok {
+						continue
+					}
+					fa, ok := st.Addr.(*ssa.FieldAddr)
+					if !ok {
+						continue
+					}
+					on := derefNamed(fa.X.Type())
+					if on != owner {
+						continue
+					}
+					if derefStruct(fa.X.Type()).Field(fa.Field).Name() != field {
+						continue
+					}
+					n++
+					walk(st.Val, depth+1)
+				}
+			}
+		}
+		_ = n
+	}
+	walk = func(v ssa.Value, depth int) {
+		if v == nil || seen[v] {
+			return
+		}
+		seen[v] = true
+		if depth > 40 {
+			complete = false
+			return
+		}
+		switch x := v.(type) {
+		case *ssa.Const:
+			// nil interface: no dynamic type
+		case *ssa.MakeInterface:
+			addT(x.X.Type())
+		case *ssa.Phi:
+			for _, e := range x.Edges {
+				walk(e, depth+1)
+			}
+		case *ssa.ChangeInterface:
+			walk(x.X, depth+1)
+		case *ssa.TypeAssert:
+			walk(x.X, depth+1)
+		case *ssa.Extract:
+			if c, ok := x.Tuple.(*ssa.Call); ok {
+				p.walkCallResult(c, x.Index, walk, &complete, depth)
+			} else if ta, ok := x.Tuple.(*ssa.TypeAssert); ok && x.Index == 0 {
+				walk(ta.X, depth+1)
+			} else {
+				complete = false
+			}
+		case *ssa.Call:
+			p.walkCallResult(x, 0, walk, &complete, depth)
+		case *ssa.UnOp:
+			if x.Op != token.MUL {
+				complete = false
+				return
+			}
+			switch a := x.X.(type) {
+			case *ssa.FieldAddr:
+				owner := derefNamed(a.X.Type())
+				if owner == nil {
+					complete = false
+					return
+				}
+				walkField(owner, derefStruct(a.X.Type()).Field(a.Field).Name(), depth)
+			case *ssa.Global:
+				for _, fn := range p.Funcs() {
+					for _, b := range fn.Blocks {
+						for _, in := range b.Instrs {
+							if st, ok := in.(*ssa.Store); ok && st.Addr == ssa.Value(a) {
+								walk(st.Val, depth+1)
+							}
+						}
+					}
+				}
+			case *ssa.Alloc:
+				if refs := a.Referrers(); refs != nil {
+					for _, u := range *refs {
+						if st, ok := u.(*ssa.Store); ok && st.Addr == ssa.Value(a) {
+							walk(st.Val, depth+1)
+						}
+					}
+				}
+			default:
+				complete = false
+			}
+		default:
+			complete = false
+		}
+	}
+	walk(v, 0)
+	return out, complete
+}
+
+func (p *Program) walkCallResult(c *ssa.Call, idx int, walk func(ssa.Value, int), complete *bool, depth int) {
+	callees, ok := p.Callees(c)
+	if !ok {
+		*complete = false
+		return
+	}
+	if c.Common().IsInvoke() && len(callees) == 0 {
+		*complete = false
+		return
+	}
+	for _, f := range callees {
+		if f.Blocks == nil {
+			// a function outside the repository returns a type defined outside the repository
+			// (std constructors) - unless its result type is an interface a repository value could be passed through
+			continue
+		}
+		for _, b := range f.Blocks {
+			for _, in := range b.Instrs {
+				if ret, ok := in.(*ssa.Return); ok && idx < len(ret.Results) {
+					walk(ret.Results[idx], depth+1)
+				}
+			}
+		}
+	}
 }
